@@ -159,6 +159,56 @@ Theorem C11_panic_only_invalid : forall i, handler i = Panic -> codes_valid i = 
 Proof. exact panic_only_invalid. Qed.
 Print Assumptions C11_panic_only_invalid.
 
+(* ... and exactly then: closed form of the inputs without a reply; a reply exists whenever
+   every status on the way is valid *)
+Theorem C11_panic_iff : forall i, handler i = Panic <-> panics i = true.
+Proof. exact panic_iff. Qed.
+Print Assumptions C11_panic_iff.
+
+Theorem C11_reply_exists : forall i, codes_valid i = true -> exists o, handler i = Reply o.
+Proof. exact reply_exists. Qed.
+Print Assumptions C11_reply_exists.
+
+(* which render serves an endpoint (model of getRender / renderRegister / negotiatedRender):
+   a registered, non-empty output_encoding wins; otherwise the encoding of the only backend
+   if registered, else json *)
+Theorem C11_render_selection : forall im out backs,
+  (forall r, out <> "" -> registered im out = Some r -> get_render im out backs = r) /\
+  (out = "" \/ registered im out = None ->
+   get_render im out backs =
+   match backs with [e] => with_fallback im e (NRender RJson) | _ => NRender RJson end).
+Proof.
+  intros im out backs. split.
+  - intros r. exact (get_render_output im out backs r).
+  - exact (get_render_fallback im out backs).
+Qed.
+Print Assumptions C11_render_selection.
+
+(* the mux family only ever serves json / no-op / string / json-collection; no-op is selected
+   by output_encoding on every implementation, whatever the Accept header *)
+Theorem C11_mux_renders : forall im out backs a,
+  im <> Gin -> In (render_of_config im out backs a) [RJson; RNoop; RString; RCollection].
+Proof. exact mux_renders. Qed.
+Print Assumptions C11_mux_renders.
+
+Theorem C11_noop_selected : forall im backs a, render_of_config im "no-op" backs a = RNoop.
+Proof. exact noop_selected. Qed.
+Print Assumptions C11_noop_selected.
+
+(* one layer down: the handlers and renders as sequences of writer operations (Set / Add /
+   c.Status / WriteHeader / Write, in source order) run against the writers (gin's remembered
+   status, net/http's header snapshot at the first WriteHeader or Write, the interceptor):
+   the reply is the one of the functional model, for every input - so every theorem above
+   holds of the operation-level model, for every output encoding *)
+Theorem C11_writer_ops_refine : forall i, handler_ops i = handler i.
+Proof. exact handler_ops_refines. Qed.
+Print Assumptions C11_writer_ops_refine.
+
+(* and no handler or render touches a header after an operation that sends the status line *)
+Theorem C11_headers_before_status_line : forall i, headers_first (ops_of i) = true.
+Proof. exact ops_headers_first. Qed.
+Print Assumptions C11_headers_before_status_line.
+
 (* the boolean oracle evaluated on the implementation's observations is the property *)
 Theorem C11_oracle_exact : forall i o, spec_b i o = true <-> Spec i o.
 Proof. exact spec_b_iff. Qed.
@@ -230,6 +280,17 @@ Example C11_ex_wrapped : forall im,
   exists o, handler (ex_input im None (Some {| e_status := None; e_multi := false; e_msg := "w: no content"; e_buried := Some 204%Z |}) 0) = Reply o
             /\ o_status o = 500%Z.
 Proof. destruct im; eexists; vm_compute; split; reflexivity. Qed.
+Example C11_ex_negotiate :
+  map (render_of_config Gin "negotiate" ["json"]) [AcNone; AcJson; AcPlain; AcXml; AcYaml; AcOther]
+  = [RJson; RJson; RYaml; RXml; RYaml; RJson] /\
+  render_of_config Mux "negotiate" ["string"] AcXml = RString /\
+  render_of_config Gin "" ["no-op"; "no-op"] AcNone = RJson /\
+  render_of_config MuxEngine "bogus" ["no-op"] AcNone = RNoop.
+Proof. vm_compute. repeat split; reflexivity. Qed.
+Example C11_ex_panics :
+  panics (ex_input Mux None (Some {| e_status := Some 1000%Z; e_multi := false; e_msg := ""; e_buried := None |}) 0) = true /\
+  panics (ex_input Gin None (Some {| e_status := Some 0%Z; e_multi := false; e_msg := ""; e_buried := None |}) 0) = false.
+Proof. vm_compute. split; reflexivity. Qed.
 (* the recorded finding has inputs, and they are recognised *)
 Example C11_ex_in_finding : forall im, in_finding (spoof_input im "x-krakend-completed" "true") = true.
 Proof. destruct im; vm_compute; reflexivity. Qed.
